@@ -40,16 +40,23 @@ Rejects(w, op) ==
 \* outside the documented precondition of the operation: explored, never judged
 OutOfScope(w, op) ==
     CASE op.k = "normalize_x" -> IsConst(w.x) \/ IsConst(w.rx) \/ IsConst(w.ox)
-      [] op.k = "normalize_y" -> w.yopaque \/ IsConst(w.y) \/ IsConst(w.ry) \/ IsConst(w.oy)
+      [] op.k = "normalize_y" -> (~w.yopaque /\ IsConst(w.y)) \/ IsConst(w.ry) \/ IsConst(w.oy)
       [] op.k = "append" -> Len(w.x) < 2 \/ Len(w.rx) < 2
       [] op.k = "repeat" -> op.r < 1 \/ Len(w.x) < 2 \/ Len(w.rx) < 2
       [] op.k = "scale_x" -> RLe(op.v, Zero)
       [] op.k = "scale_y" -> op.v = Zero
-      [] op.k = "truncate_index" -> ~Rejects(w, op) /\ (StopIdx(w.x, op.stop) - op.start < 2 \/ op.stop < 0)
+      \* the reference is cut with the same bounds: a cut that leaves fewer than two working or reference samples (possible
+      \* once the series has been reshaped and the two no longer have the same length) is outside the documented use
+      [] op.k = "truncate_index" -> ~Rejects(w, op) /\ (StopIdx(w.x, op.stop) - op.start < 2 \/ op.stop < 0
+                                                        \/ Len(SliceSeq(w.rx, op.start, StopIdx(w.x, op.stop), 1)) < 2)
       [] op.k = "truncate_value" -> ~Rejects(w, op) /\
-                                    LET r == TruncRange(w.x, op.left, op.right, op.lr, op.rr) IN r[2] - r[1] < 2
-      [] op.k = "recreate" -> Len(w.x) < 2 \/ w.yopaque
-      [] op.k = "integral_match" -> w.yopaque
+                                    (\/ Len(w.rx) < 2
+                                     \/ TruncRejects(w.rx, op.left, op.right, op.lr, op.rr)
+                                     \/ LET r == TruncRange(w.x, op.left, op.right, op.lr, op.rr) IN r[2] - r[1] < 2
+                                     \/ LET r == TruncRange(w.rx, op.left, op.right, op.lr, op.rr) IN r[2] - r[1] < 2)
+      [] op.k = "recreate" -> Len(w.x) < 2
+      [] op.k = "smooth" -> Len(w.x) < 5
+      [] op.k \in {"interpolate_n", "interpolate_grid"} -> Len(w.x) < 4 \/ (op.k = "interpolate_n" /\ op.n < 2)
       [] OTHER -> FALSE
 
 (***************************************************************************)
@@ -68,13 +75,13 @@ Apply(w, op) ==
             LET a == AppendOneSample(w.x, w.y, op.periodic)  r == AppendOneSample(w.rx, w.ry, op.periodic)
             IN [w EXCEPT !.x = a[1], !.y = a[2], !.rx = r[1], !.ry = r[2]]
       [] op.k = "shift_x" -> [w EXCEPT !.x = ShiftSeq(w.x, op.v), !.rx = ShiftSeq(w.rx, op.v)]
-      [] op.k = "shift_y" -> [w EXCEPT !.y = ShiftSeq(w.y, op.v), !.ry = ShiftSeq(w.ry, op.v)]
+      [] op.k = "shift_y" -> [w EXCEPT !.y = IF w.yopaque THEN w.y ELSE ShiftSeq(w.y, op.v), !.ry = ShiftSeq(w.ry, op.v)]
       [] op.k = "scale_x" -> [w EXCEPT !.x = ScaleSeq(w.x, op.v), !.rx = ScaleSeq(w.rx, op.v)]
-      [] op.k = "scale_y" -> [w EXCEPT !.y = ScaleSeq(w.y, op.v), !.ry = ScaleSeq(w.ry, op.v)]
+      [] op.k = "scale_y" -> [w EXCEPT !.y = IF w.yopaque THEN w.y ELSE ScaleSeq(w.y, op.v), !.ry = ScaleSeq(w.ry, op.v)]
       [] op.k = "normalize_x" ->
             [w EXCEPT !.x = Normalize(w.x, op.lo, op.hi), !.rx = Normalize(w.rx, op.lo, op.hi), !.ox = Normalize(w.ox, op.lo, op.hi)]
       [] op.k = "normalize_y" ->
-            [w EXCEPT !.y = Normalize(w.y, op.lo, op.hi), !.ry = Normalize(w.ry, op.lo, op.hi), !.oy = Normalize(w.oy, op.lo, op.hi)]
+            [w EXCEPT !.y = IF w.yopaque THEN w.y ELSE Normalize(w.y, op.lo, op.hi), !.ry = Normalize(w.ry, op.lo, op.hi), !.oy = Normalize(w.oy, op.lo, op.hi)]
       [] op.k = "repeat" ->
             LET a == Repeat(w.x, w.y, op.r)  r == Repeat(w.rx, w.ry, op.r)
             IN [w EXCEPT !.x = a[1], !.y = a[2], !.rx = r[1], !.ry = r[2]]
@@ -89,10 +96,11 @@ Apply(w, op) ==
             \* behaves afterwards like a newly constructed object on the data get_original() returns
             New(w.ox, w.oy)
       [] op.k = "recreate" ->
-            IF op.strategy = "CubicSpline"
+            IF op.strategy = "CubicSpline" \/ w.yopaque
             THEN [w EXCEPT !.x = OversampleLinspace(w.x, op.n), !.y = OversamplePiecewise(w.y, op.n), !.yopaque = TRUE, !.reshaped = TRUE]
             ELSE LET o == RecreateOut(w.x, w.y, op) IN [w EXCEPT !.x = o[1], !.y = o[2], !.reshaped = TRUE]
       [] op.k = "integral_match" ->
+            IF w.yopaque THEN [w EXCEPT !.reshaped = TRUE] ELSE
             [w EXCEPT !.y = Match(w.x, w.y, w.rx, w.ry, "search", "closest", <<>>, op.trule, op.rrule, op.alpha), !.reshaped = TRUE]
       [] op.k = "interpolate_n" ->
             LET q == Linspace(w.x[1], Last(w.x), op.n)
